@@ -11,10 +11,11 @@ echo "-- demo with change:"; PYTHONPATH=$w timeout 300 /venv/bin/python $dir/dem
 echo "-- repo suite with change:"; rm -rf .hypothesis; /venv/bin/python -m pytest -q -p no:cacheprovider --timeout=900 --continue-on-collection-errors 2>&1 | grep -E "passed|failed" | tail -1
 rm -rf .hypothesis
 cd /verif
+rm -rf /tmp/ev-gen-$$; cp -r lean/LiquidVerif/Gen /tmp/ev-gen-$$; cp -r evidence /tmp/ev-evi-$$
 for c in $id $others; do
   echo "-- ./check $c on the changed tree:"
   LIQUID_REPO=$w ./check $c 2>&1 | grep -E "VIOLATION|tier=" | tail -3
   ls -t replay/$c-* 2>/dev/null | head -1
 done
-git -C /verif checkout -- lean/LiquidVerif/Gen evidence 2>/dev/null
+rm -rf lean/LiquidVerif/Gen evidence; mv /tmp/ev-gen-$$ lean/LiquidVerif/Gen; mv /tmp/ev-evi-$$ evidence
 git -C /repo worktree remove --force $w
